@@ -228,7 +228,7 @@ Definition cmp_fn (sch : scheme) (op : cmpop) : comparer * bool :=
 
 (* ---- types of AST nodes (GetType impls; None = unreachable!/index panic) ---- *)
 
-Fixpoint ty_index (t : ty) (idx : list index) : M ty :=
+Fixpoint ty_index (t : ty) (idx : list index) {struct idx} : M ty :=
   match idx with
   | [] => Some t
   | i :: r =>
